@@ -414,6 +414,8 @@ def type_flags(ty):
         out.add("uninterpreted")
     elif ty.is_custom_type():
         out.add("custom_type")
+        for a in (getattr(ty, "args", None) or ()):
+            out |= type_flags(a)        # a sort argument must exist in the logic too: (Lst Int) needs Int
     return out
 
 
@@ -452,6 +454,7 @@ def detect_cases(env):
         ("arrayvalue-bvidx", m.Array(tm.BVType(4), i), ["arrays", "arrays_const", "bit_vectors"]),
         ("function-custom", m.Function(fu, [i]), ["uninterpreted", "custom_type"]),
         ("function-bool", m.Function(fb, [r, s]), ["uninterpreted"]),
+        ("symbol-param-sort", m.Equals(m.Symbol("pl", tm.Type("Lst", 1)(T.INT)), m.Symbol("pl2", tm.Type("Lst", 1)(T.INT))), []),
         ("forall-bv", m.ForAll([x], a), ["bit_vectors"]), ("exists-int-real", m.Exists([i, r], a), ["integer_arithmetic", "real_arithmetic"]),
     ]
 
@@ -590,6 +593,8 @@ def features(f):
             ty(t.return_type)
         elif t.is_custom_type():
             req["custom_type"] = True
+            for a in (getattr(t, "args", None) or ()):
+                ty(a)
     for t in rs.subterms(f):
         nt = t.node_type()
         if nt == op.SYMBOL:
@@ -670,6 +675,11 @@ def gen_detect(env, tier):
               m.Equals(m.StrIndexOf(g.sym[g.S][0], g.sym[g.S][1], m.Times(x, y)), y),
               m.Equals(m.BVToNatural(m.Ite(m.LT(m.Plus(x, y, z), x), q, q)), y),
               m.Equals(m.BVToNatural(m.Ite(m.LT(m.Times(x, y), x), q, m.BVNot(q))), y)]
+    # sorts that occur only as the argument of a sort constructor
+    Lst, Pair = env.type_manager.Type("Lst", 1), env.type_manager.Type("Pair", 2)
+    for k, sty in enumerate([Lst(T.INT), Lst(bv8), Pair(T.REAL, U), Lst(Lst(T.STRING)), env.type_manager.ArrayType(T.INT, Lst(bv8))]):
+        forms.append(m.Equals(m.Symbol("ps%d" % k, sty), m.Symbol("pt%d" % k, sty)))
+        forms.append(m.ForAll([m.Symbol("pq%d" % k, T.BOOL)], m.Equals(m.Symbol("ps%d" % k, sty), m.Symbol("pt%d" % k, sty))))
     return forms
 
 
